@@ -123,7 +123,7 @@ def main():
             passes = ' 62 passed' in tail and 'failed' not in tail.replace('2 failed', '')
             res = {'targets': m['targets'], 'existing_suite': tail, 'passes_existing_suite': passes, 'checks': {}}
             for pid in m['targets']:
-                env = dict(os.environ, VERIF_REPO=root, VERIF_BUDGET_S=budget, VERIF_NO_EVIDENCE='1')
+                env = dict(os.environ, VERIF_REPO=root, VERIF_BUDGET_S=budget, VERIF_NO_EVIDENCE='1', VERIF_REPLAY_DIR=os.path.join(tmp, 'replays'))
                 c = subprocess.run([os.path.join(HERE, 'scripts', 'check'), pid, '--tier', 'quick'], cwd=HERE, env=env,
                                    capture_output=True, text=True, timeout=1200)
                 clauses = sorted({ln.split('clause=')[1].split(' ')[0] for ln in c.stdout.splitlines() if 'clause=' in ln})
@@ -135,7 +135,6 @@ def main():
             print(m['name'], res['status'], {k: v['clauses'] for k, v in res['checks'].items()}, '| suite:', tail)
         finally:
             shutil.rmtree(tmp, ignore_errors=True)
-            shutil.rmtree(os.path.join(HERE, 'replays'), ignore_errors=True)
     # restore evidence files written against mutated trees? they are rewritten by the next real run; re-run is the
     # caller's job (scripts/mutants.py is never a registered command)
     os.makedirs(os.path.dirname(out_path), exist_ok=True)
